@@ -3,9 +3,9 @@ CONSTANTS
   MaxLen = 5
   Alphabet = {"..", ".", "", "sub", "in.txt", "rootx", "root", "B", "A"}
   Base <- BaseMC
-  Pres = {"rel", "abs0", "absW"}
+  Pres = {"rel"}
   Kinds = {"fwd", "back", "mix"}
-  RootForms = {"plain"}
+  RootForms = {"plain", "trail"}
   Chains = {TRUE, FALSE}
 INVARIANT Safe
 INVARIANT NormalForm
